@@ -162,6 +162,11 @@ func pts(c *mon.Ctx, v uint64, r *gen.Rand, class string) {
 	c.Class("pts/" + class)
 }
 
+var (
+	heldPCR, heldOPCR       []byte
+	heldPCRVal, heldOPCRVal uint64
+)
+
 func endToEnd(c *mon.Ctx, r *gen.Rand) {
 	// PCR / OPCR through the adaptation-field API
 	v, o := r.Uint64()%ref.PCRMax, r.Uint64()%ref.PCRMax
@@ -270,6 +275,20 @@ func endToEnd(c *mon.Ctx, r *gen.Rand) {
 				c.Fail("e2e:private-data-after-clock-removed", fmt.Sprintf("the transport private data behind the clock references reads %x (%v) after one of them was removed; set %x", b, err, tpd), wit{Op: "TransportPrivateData", Got: mon.Hex(b)})
 			}
 		}
+	}
+	// the byte slices the function-style accessors returned for the previous packet (which is not touched any
+	// more) still hold that packet's clocks after the accessors were called on this one
+	if b, err := adaptationfield.PCR(p); err == nil && len(b) == 6 {
+		if heldPCR != nil && ref.DecPCR(heldPCR) != heldPCRVal {
+			c.Fail("e2e:pcr-func-earlier-result-changed", fmt.Sprintf("the slice adaptationfield.PCR returned for an earlier packet (PCR %d) now decodes to %d, after the accessor was called on another packet", heldPCRVal, ref.DecPCR(heldPCR)), wit{Op: "adaptationfield.PCR", Value: heldPCRVal})
+		}
+		heldPCR, heldPCRVal = b, ref.DecPCR(b)
+	}
+	if b, err := adaptationfield.OPCR(p); err == nil && len(b) == 6 {
+		if heldOPCR != nil && ref.DecPCR(heldOPCR) != heldOPCRVal {
+			c.Fail("e2e:opcr-func-earlier-result-changed", fmt.Sprintf("the slice adaptationfield.OPCR returned for an earlier packet (OPCR %d) now decodes to %d, after the accessor was called on another packet", heldOPCRVal, ref.DecPCR(heldOPCR)), wit{Op: "adaptationfield.OPCR", Value: heldOPCRVal})
+		}
+		heldOPCR, heldOPCRVal = b, ref.DecPCR(b)
 	}
 	// PTS / DTS through a PES header, on every stream id that has the optional header
 	sid := byte(0xe0)
